@@ -88,9 +88,33 @@ Proof.
 Qed.
 
 Lemma configured_bounds a lo hi ck ctx :
+  cfg_fails ck (val_count (cval ctx)) = false ->
   mk_iter (IRepCfg a lo hi ck) ctx
   = SCfg 0 (cfg_lo ck lo (val_count (cval ctx))) (cfg_hi ck hi (val_count (cval ctx))).
+Proof. intros H. cbn [mk_iter]. now rewrite H. Qed.
+
+(* try_configure whose closure returns an error: the iteration fails at once with that error recorded at the cursor,
+   whatever the finisher (so the enclosing parser fails like a rejecting try_map would) *)
+Lemma try_configure_error_is_failure a lo hi ck ctx : cfg_fails ck (val_count (cval ctx)) = true ->
+  mk_iter (IRepCfg a lo hi ck) ctx = SFail lo.
+Proof. intros H. cbn [mk_iter]. now rewrite H. Qed.
+
+Lemma failed_configure_step a lo hi ck ctx k p r :
+  it_snext toks spn run (IRepCfg a lo hi ck) ctx (SFail k) p r
+  = match run (TryMap PFalse FId k Empty) ctx p r with
+    | Some (None, r') => Some (SErr, SFail k, r')
+    | _ => None
+    end.
 Proof. reflexivity. Qed.
+
+Lemma try_configure_failure a lo hi ck ctx k p r :
+  (cfg_fails ck (val_count (cval ctx)) = true -> mk_iter (IRepCfg a lo hi ck) ctx = SFail lo) /\
+  it_snext toks spn run (IRepCfg a lo hi ck) ctx (SFail k) p r
+  = match run (TryMap PFalse FId k Empty) ctx p r with
+    | Some (None, r') => Some (SErr, SFail k, r')
+    | _ => None
+    end.
+Proof. split; [apply try_configure_error_is_failure | apply failed_configure_step]. Qed.
 
 (* enumerate pairs the i-th item (in input order) with i *)
 Fixpoint indexed (items : list sitem) (n : nat) : Prop :=
